@@ -618,6 +618,9 @@ class Interp:
         if v.kind == "mem":
             newmem = self.mem_write(v, idx, val)
             st.frames[fr][l] = set_path(base, pre, newmem)
+            if st.frames and "$stored" in st.frames[0]:
+                # ghost variable of rules that ask "does every returning path store to memory": 1 on this path from here on
+                st.frames[0]["$stored"] = IntV.const("bool", 1)
             return
         if v.kind == "agg" and idx.kind == "int" and idx.is_const() and idx.lo < len(v.fields) and not post:
             fs = list(v.fields)
